@@ -355,7 +355,7 @@ Definition parse_rest (dec grp : Z) (neg : bool) (value s1 : text) : option pnum
       | [] =>
           let lit := ints ++ (if dot then c_dot :: frac else [])
                           ++ (match ex with [] => [] | _ :: _ => c_e :: ex end) in
-          if f64_syntax lit then
+          if f64_syntax lit && negb (dec_overflows ints frac (lit_exp ex)) then
             Some {| p_neg := neg; p_int := ints; p_seps := idxs; p_dot := dot; p_frac := frac;
                     p_sci := sci; p_exp := ex; p_decdigits := decdigits; p_lit := lit |}
           else None
@@ -406,6 +406,7 @@ Lemma parse_rest_parts dec grp neg value g0 gs dot frac em ex :
   parse_rest dec grp neg value (core_of dec grp g0 gs dot frac em ex) =
   if groups_ok (g0 ++ concat gs) (idx_from (len g0) gs)
      && nonemptyb ((g0 ++ concat gs) ++ (if dot then frac else [])) && ex_valid ex
+     && negb (dec_overflows (g0 ++ concat gs) frac (lit_exp ex))
   then Some {| p_neg := neg; p_int := g0 ++ concat gs; p_seps := idx_from (len g0) gs; p_dot := dot;
                p_frac := frac; p_sci := nonemptyb ex; p_exp := ex; p_decdigits := dd;
                p_lit := mk_lit (g0 ++ concat gs) dot frac ex |}
@@ -460,7 +461,7 @@ Proof.
     rewrite Hdot, Hfr. cbv beta iota zeta. rewrite Hexp. cbv beta iota zeta.
     fold (mk_lit (g0 ++ concat gs) dot frac ex).
     rewrite (f64_syntax_lit _ dot _ ex Hints Hf Hx).
-    destruct (nonemptyb ((g0 ++ concat gs) ++ (if dot then frac else [])) && ex_valid ex); [|reflexivity].
+    match goal with |- (if ?c then _ else _) = _ => destruct c end; [|reflexivity].
     unfold dd. destruct dot; reflexivity.
 Qed.
 
@@ -502,15 +503,15 @@ Proof.
   destruct (c =? c_minus) eqn:E1.
   - apply Z.eqb_eq in E1. subst c. destruct r as [|r0 r']; [discriminate|].
     destruct (all_digits (r0 :: r')) eqn:Ed; [|discriminate]. intro H; inversion H; subst.
-    repeat split; auto; try discriminate; try (cbn [exp_value]; rewrite ?Z.eqb_refl; reflexivity).
+    repeat split; auto; try discriminate; try (unfold exp_value; cbn [lit_exp]; rewrite ?Z.eqb_refl; reflexivity).
   - destruct (c =? c_plus) eqn:E2.
     + apply Z.eqb_eq in E2. subst c. destruct r as [|r0 r']; [discriminate|].
       destruct (all_digits (r0 :: r')) eqn:Ed; [|discriminate]. intro H; inversion H; subst.
-      repeat split; auto; try discriminate; try (cbn [exp_value]; rewrite ?E1, ?Z.eqb_refl; reflexivity).
+      repeat split; auto; try discriminate; try (unfold exp_value; cbn [lit_exp]; rewrite ?E1, ?Z.eqb_refl; reflexivity).
     + destruct (all_digits (c :: r)) eqn:Ed; [|discriminate]. intro H; inversion H; subst.
       pose proof Ed as Ed'. unfold all_digits in Ed'. cbn [forallb] in Ed'. apply andb_true_iff in Ed' as [Hc Hr].
       repeat split; auto; try discriminate;
-        try (cbn [ex_valid]; rewrite E1, E2; reflexivity); try (cbn [exp_value]; rewrite E1, E2; reflexivity).
+        try (cbn [ex_valid]; rewrite E1, E2; reflexivity); try (unfold exp_value; cbn [lit_exp]; rewrite E1, E2; reflexivity).
 Qed.
 
 Lemma spec_unsigned_inv dec grp neg af body d :
@@ -589,14 +590,17 @@ Qed.
 
 Lemma complete_rest dec grp sneg af body d :
   wf_seps dec grp = true ->
-  spec_unsigned dec grp sneg af body = Some d ->
+  spec_unsigned dec grp sneg af body = Some d -> spec_representable d = true ->
   (forall neg value, exists p, parse_rest dec grp neg value body = Some p /\ p_neg p = neg /\ fields_agree p d) /\
   (exists c r, body = c :: r /\ c <> c_minus /\ c <> c_plus) /\
   s_neg d = sneg /\ s_affix d = af /\ (existsb is_e body = false -> s_has_exp d = false).
 Proof.
-  intros Hwf H.
+  intros Hwf H Hrep.
   destruct (spec_unsigned_inv _ _ _ _ _ _ Hwf H)
     as (g0 & gs & dot & frac & em & ex & Hb & Hem & Hg0 & Hgs & Hf & Hsh & Hv & Hok & Hhd & Hdf & Hne & Hd).
+  assert (Hfin : dec_overflows (g0 ++ concat gs) frac (lit_exp ex) = false).
+  { subst d. unfold spec_representable in Hrep. cbn [s_int s_frac s_exp] in Hrep. unfold exp_value in Hrep.
+    apply negb_true_iff in Hrep. exact Hrep. }
   split; [|split; [|split; [|split]]].
   - intros neg value.
     destruct (parse_rest_parts dec grp neg value g0 gs dot frac em ex Hwf Hem Hg0 Hgs Hf Hsh Hhd Hdf) as [dd Hp].
@@ -604,7 +608,7 @@ Proof.
     match type of Hp with context [nonemptyb ?X] =>
       replace X with ((g0 ++ concat gs) ++ frac) in Hp
         by (destruct dot; [reflexivity | rewrite (Hdf eq_refl); reflexivity]) end.
-    rewrite Hne in Hp. cbn [andb] in Hp.
+    rewrite Hne, Hfin in Hp. cbn [andb negb] in Hp.
     eexists. split; [exact Hp|]. subst d. cbn. repeat split; auto.
     destruct gs; reflexivity.
   - subst body. apply core_head; auto.
@@ -618,29 +622,29 @@ Qed.
 
 Lemma complete_signed dec grp af body d :
   wf_seps dec grp = true ->
-  spec_signed dec grp af body = Some d ->
+  spec_signed dec grp af body = Some d -> spec_representable d = true ->
   exists p, parse_number dec grp body = Some p /\ p_neg p = s_neg d /\ fields_agree p d /\ s_affix d = af.
 Proof.
-  intros Hwf H. rewrite parse_number_unfold. unfold spec_signed in H.
+  intros Hwf H Hrep. rewrite parse_number_unfold. unfold spec_signed in H.
   destruct body as [|c r]; [discriminate|].
   destruct (c =? c_minus) eqn:E1.
-  - destruct (complete_rest _ _ _ _ _ _ Hwf H) as (Hp & _ & Hn & Ha & _).
+  - destruct (complete_rest _ _ _ _ _ _ Hwf H Hrep) as (Hp & _ & Hn & Ha & _).
     destruct (Hp true (c :: r)) as (p & Hp1 & Hp2 & Hp3). exists p. rewrite Hn. auto.
   - destruct (c =? c_plus) eqn:E2.
-    + destruct (complete_rest _ _ _ _ _ _ Hwf H) as (Hp & _ & Hn & Ha & _).
+    + destruct (complete_rest _ _ _ _ _ _ Hwf H Hrep) as (Hp & _ & Hn & Ha & _).
       destruct (Hp false (c :: r)) as (p & Hp1 & Hp2 & Hp3). exists p. rewrite Hn. auto.
-    + destruct (complete_rest _ _ _ _ _ _ Hwf H) as (Hp & _ & Hn & Ha & _).
+    + destruct (complete_rest _ _ _ _ _ _ Hwf H Hrep) as (Hp & _ & Hn & Ha & _).
       destruct (Hp false (c :: r)) as (p & Hp1 & Hp2 & Hp3). exists p. rewrite Hn. auto.
 Qed.
 
 Lemma complete_unsigned dec grp af body d :
   wf_seps dec grp = true ->
-  spec_unsigned dec grp true af body = Some d ->
+  spec_unsigned dec grp true af body = Some d -> spec_representable d = true ->
   exists p, parse_number dec grp body = Some p /\ p_neg p = false /\ fields_agree p d /\
             s_neg d = true /\ s_affix d = af /\ (existsb is_e body = false -> p_sci p = false).
 Proof.
-  intros Hwf H. rewrite parse_number_unfold.
-  destruct (complete_rest _ _ _ _ _ _ Hwf H) as (Hp & (c & r & Hb & N1 & N2) & Hn & Ha & He).
+  intros Hwf H Hrep. rewrite parse_number_unfold.
+  destruct (complete_rest _ _ _ _ _ _ Hwf H Hrep) as (Hp & (c & r & Hb & N1 & N2) & Hn & Ha & He).
   subst body. apply Z.eqb_neq in N1, N2. rewrite N1, N2.
   destruct (Hp false (c :: r)) as (p & Hp1 & Hp2 & Hp3). exists p. repeat split; auto; try apply Hp3.
   intro Hx. destruct Hp3 as (_ & _ & Hs & _). rewrite Hs. apply He. exact Hx.
@@ -649,7 +653,7 @@ Qed.
 (* ---------- the outer dispatch ---------- *)
 Definition cur_result (c : text) (mode : Z) (n : pnum) : recog :=
   if mode =? 0 then
-    (if p_sci n then {| r_value := VNum n false false; r_kind := KCurrency c true; r_fmt := Some fmt_sci |}
+    (if p_sci n then {| r_value := VNum n false true; r_kind := KCurrency c true; r_fmt := Some fmt_sci |}
      else if 0 <? p_decdigits n
      then {| r_value := VNum n false true; r_kind := KCurrency c true; r_fmt := Some (c ++ fmt_g2) |}
      else {| r_value := VNum n false true; r_kind := KCurrency c true; r_fmt := Some (c ++ fmt_g0) |})
@@ -712,50 +716,52 @@ Qed.
 
 Theorem complete L t d :
   wf_seps (l_dec L) (l_grp L) = true ->
-  spec_recognise L t = Some d ->
+  spec_stored L t = Some d ->
   (s_affix d = ANone -> parse_date L t = None) ->
-  exists r, parse_formatted_number L t = Some r /\ agrees_core r d = true /\
-            (negcur_exponent L t = false -> agrees_sign r d = true).
+  exists r, parse_formatted_number L t = Some r /\ agrees r d = true.
 Proof.
-  intros Hwf Hs Hdate. unfold spec_recognise in Hs. unfold parse_formatted_number, negcur_exponent, number_body.
+  intros Hwf Hst Hdate. unfold spec_stored in Hst.
+  destruct (spec_recognise L t) as [d'|] eqn:Hs; [|discriminate].
+  destruct (spec_representable d') eqn:Hrep; [|discriminate]. inversion Hst; subst d'. clear Hst.
+  unfold spec_recognise in Hs. unfold parse_formatted_number, agrees.
   destruct (strip_suffix [c_pct] (trim t)) as [b|].
-  - destruct (complete_signed _ _ _ _ _ Hwf Hs) as (p & Hp & Hn & Hf & Ha). rewrite Hp.
+  - destruct (complete_signed _ _ _ _ _ Hwf Hs Hrep) as (p & Hp & Hn & Hf & Ha). rewrite Hp.
     assert (Hk : affix_of_kind KPercent = Some (s_affix d)) by (rewrite Ha; reflexivity).
     assert (Hpc : true = affix_eqb (s_affix d) APercent) by (rewrite Ha; reflexivity).
-    destruct (p_sci p); [|destruct (0 <? p_decdigits p)]; eexists; (split; [reflexivity|]); split;
-      try (apply agrees_core_of; assumption);
-      intros _; unfold agrees_sign; cbn [r_value]; rewrite Hn, xorb_false_r; apply eqb_reflx.
+    destruct (p_sci p); [|destruct (0 <? p_decdigits p)]; eexists; (split; [reflexivity|]);
+      (rewrite agrees_core_of; [| assumption | assumption | assumption]);
+      unfold agrees_sign; cbn [r_value]; rewrite Hn, xorb_false_r, eqb_reflx; reflexivity.
   - rewrite try_currencies_find.
     destruct (find_currency (l_cur L) (trim t)) as [[[c mode] b]|] eqn:Efc.
     + destruct (find_currency_mode _ _ _ _ _ Efc) as [Hm|[Hm|Hm]]; subst mode; cbn [Z.eqb Pos.eqb] in Hs.
-      * destruct (complete_unsigned _ _ _ _ _ Hwf Hs) as (p & Hp & Hn & Hf & Hsn & Ha & Hx). rewrite Hp.
+      * destruct (complete_unsigned _ _ _ _ _ Hwf Hs Hrep) as (p & Hp & Hn & Hf & Hsn & Ha & Hx). rewrite Hp.
         assert (Hk : affix_of_kind (KCurrency c true) = Some (s_affix d)) by (rewrite Ha; reflexivity).
         assert (Hpc : false = affix_eqb (s_affix d) APercent) by (rewrite Ha; reflexivity).
-        eexists; split; [reflexivity|]. unfold cur_result. cbn [Z.eqb]. split.
-        -- destruct (p_sci p); [|destruct (0 <? p_decdigits p)]; apply agrees_core_of; assumption.
-        -- cbn [negb andb]. intro He. rewrite (Hx He). unfold agrees_sign.
-           destruct (0 <? p_decdigits p); cbn [r_value]; rewrite Hn, Hsn; reflexivity.
-      * destruct (complete_signed _ _ _ _ _ Hwf Hs) as (p & Hp & Hn & Hf & Ha). rewrite Hp.
+        eexists; split; [reflexivity|]. unfold cur_result. cbn [Z.eqb].
+        destruct (p_sci p); [|destruct (0 <? p_decdigits p)];
+          (rewrite agrees_core_of; [| assumption | assumption | assumption]);
+          unfold agrees_sign; cbn [r_value]; rewrite Hn, Hsn; reflexivity.
+      * destruct (complete_signed _ _ _ _ _ Hwf Hs Hrep) as (p & Hp & Hn & Hf & Ha). rewrite Hp.
         assert (Hk : affix_of_kind (KCurrency c true) = Some (s_affix d)) by (rewrite Ha; reflexivity).
         assert (Hpc : false = affix_eqb (s_affix d) APercent) by (rewrite Ha; reflexivity).
         eexists; split; [reflexivity|]. unfold cur_result. cbn [Z.eqb Pos.eqb].
-        destruct (p_sci p); [|destruct (0 <? p_decdigits p)]; split;
-          try (apply agrees_core_of; assumption);
-          intros _; unfold agrees_sign; cbn [r_value]; rewrite Hn, xorb_false_r; apply eqb_reflx.
-      * destruct (complete_signed _ _ _ _ _ Hwf Hs) as (p & Hp & Hn & Hf & Ha). rewrite Hp.
+        destruct (p_sci p); [|destruct (0 <? p_decdigits p)];
+          (rewrite agrees_core_of; [| assumption | assumption | assumption]);
+          unfold agrees_sign; cbn [r_value]; rewrite Hn, xorb_false_r, eqb_reflx; reflexivity.
+      * destruct (complete_signed _ _ _ _ _ Hwf Hs Hrep) as (p & Hp & Hn & Hf & Ha). rewrite Hp.
         assert (Hk : affix_of_kind (KCurrency c false) = Some (s_affix d)) by (rewrite Ha; reflexivity).
         assert (Hpc : false = affix_eqb (s_affix d) APercent) by (rewrite Ha; reflexivity).
         eexists; split; [reflexivity|]. unfold cur_result. cbn [Z.eqb Pos.eqb].
-        destruct (p_sci p); [|destruct (0 <? p_decdigits p)]; split;
-          try (apply agrees_core_of; assumption);
-          intros _; unfold agrees_sign; cbn [r_value]; rewrite Hn, xorb_false_r; apply eqb_reflx.
-    + destruct (complete_signed _ _ _ _ _ Hwf Hs) as (p & Hp & Hn & Hf & Ha).
+        destruct (p_sci p); [|destruct (0 <? p_decdigits p)];
+          (rewrite agrees_core_of; [| assumption | assumption | assumption]);
+          unfold agrees_sign; cbn [r_value]; rewrite Hn, xorb_false_r, eqb_reflx; reflexivity.
+    + destruct (complete_signed _ _ _ _ _ Hwf Hs Hrep) as (p & Hp & Hn & Hf & Ha).
       rewrite (Hdate Ha), Hp.
       assert (Hpc : false = affix_eqb (s_affix d) APercent) by (rewrite Ha; reflexivity).
       eexists; split; [reflexivity|]. unfold plain_result.
-      destruct (p_sci p); [|destruct (p_commas p); [destruct (0 <? p_decdigits p)|]]; split;
-        try (apply agrees_core_of; [assumption | rewrite Ha; reflexivity | assumption]);
-        intros _; unfold agrees_sign; cbn [r_value]; rewrite Hn, xorb_false_r; apply eqb_reflx.
+      destruct (p_sci p); [|destruct (p_commas p); [destruct (0 <? p_decdigits p)|]];
+        (rewrite agrees_core_of; [| assumption | rewrite Ha; reflexivity | assumption]);
+        unfold agrees_sign; cbn [r_value]; rewrite Hn, xorb_false_r, eqb_reflx; reflexivity.
 Qed.
 
 (* ---------- the format assigned is of the kind of the input ---------- *)
@@ -861,7 +867,8 @@ Lemma parse_rest_inv dec grp neg value s1 p :
     ex_shape ex /\ ex_valid ex = true /\ (g0 = [] -> gs = []) /\ (dot = false -> frac = []) /\
     nonemptyb ((g0 ++ concat gs) ++ frac) = true /\
     p_neg p = neg /\ p_int p = g0 ++ concat gs /\ p_frac p = frac /\ p_sci p = nonemptyb ex /\ p_exp p = ex /\
-    p_commas p = nonemptyb (concat (map (fun _ => [0]) gs)).
+    p_commas p = nonemptyb (concat (map (fun _ => [0]) gs)) /\
+    dec_overflows (g0 ++ concat gs) frac (lit_exp ex) = false.
 Proof.
   intros Hwf H.
   assert (Hgd : is_digit grp = false).
@@ -875,6 +882,7 @@ Proof.
   destruct (exp_step s3) as [[sci ex] s4] eqn:Ee.
   destruct s4 as [|? ?]; [|discriminate].
   match type of H with (if ?X then _ else _) = _ => destruct X eqn:Ef end; [|discriminate].
+  apply andb_true_iff in Ef as [Ef Efin]. apply negb_true_iff in Efin.
   inversion H; subst p; clear H. cbn [p_neg p_int p_frac p_sci p_exp p_commas p_seps].
   destruct (scan_int_inv grp Hgd _ _ _ _ _ Esc) as (g0 & gs & Hs & Hg0 & Hgs & Hd & Hi & Hst).
   destruct (dot_step_inv _ _ _ _ _ Ed) as (Hs2 & Hfr & Hdf).
@@ -922,7 +930,7 @@ Qed.
 Lemma spec_exponent_of ex : ex_shape ex -> ex_valid ex = true ->
   spec_exponent (match ex with [] => None | _ :: _ => Some ex end) = Some (nonemptyb ex, exp_value ex).
 Proof.
-  destruct ex as [|x d]; [reflexivity|]. intros [Hd Hx] Hv. unfold spec_exponent, exp_value. cbn [ex_valid nonemptyb] in *.
+  destruct ex as [|x d]; [reflexivity|]. intros [Hd Hx] Hv. unfold spec_exponent, exp_value, lit_exp. cbn [ex_valid nonemptyb] in *.
   destruct (x =? c_minus) eqn:E1.
   - cbn [orb] in Hv. destruct d; [discriminate|]. rewrite Hd. reflexivity.
   - destruct (x =? c_plus) eqn:E2.
@@ -1027,11 +1035,11 @@ Lemma sound_rest dec grp neg value s1 p :
   wf_seps dec grp = true ->
   parse_rest dec grp neg value s1 = Some p -> run_ok grp s1 = true ->
   forall sneg af, exists d, spec_unsigned dec grp sneg af s1 = Some d /\ fields_agree p d /\
-    s_neg d = sneg /\ s_affix d = af /\ p_neg p = neg /\ (p_sci p = true -> existsb is_e s1 = true).
+    s_neg d = sneg /\ s_affix d = af /\ p_neg p = neg /\ spec_representable d = true.
 Proof.
   intros Hwf H Hrun sneg af.
   destruct (parse_rest_inv _ _ _ _ _ _ Hwf H)
-    as (g0 & gs & dot & frac & em & ex & Hs & Hem & Hg0 & Hgs & Hf & Hsh & Hv & Hhd & Hdf & Hne & P1 & P2 & P3 & P4 & P5 & P6).
+    as (g0 & gs & dot & frac & em & ex & Hs & Hem & Hg0 & Hgs & Hf & Hsh & Hv & Hhd & Hdf & Hne & P1 & P2 & P3 & P4 & P5 & P6 & Pfin).
   assert (Hgd : is_digit grp = false).
   { pose proof Hwf as W. unfold wf_seps in W. apply andb_true_iff in W as [W _]. apply andb_true_iff in W as [_ Hg].
     apply (sep_ok_facts _ Hg). }
@@ -1053,25 +1061,24 @@ Proof.
   eexists. split; [subst s1; apply spec_unsigned_parts; assumption|].
   unfold fields_agree. cbn [s_int s_frac s_has_exp s_exp s_grouped s_neg s_affix].
   rewrite P2, P3, P4, P5, P6. repeat split; auto.
-  intro Hsci. subst s1. unfold core_of, epart_of. destruct ex as [|x dd]; [discriminate|].
-  rewrite !existsb_app. cbn [existsb]. assert (E : is_e em = true) by (destruct Hem; subst; reflexivity).
-  rewrite E. cbn [orb]. rewrite !orb_true_r. reflexivity.
+  unfold spec_representable. cbn [s_int s_frac s_exp]. unfold exp_value. rewrite Pfin. reflexivity.
 Qed.
 
 Lemma sound_signed dec grp af body p :
   wf_seps dec grp = true ->
   parse_number dec grp body = Some p -> run_ok grp (strip_sign body) = true ->
-  exists d, spec_signed dec grp af body = Some d /\ fields_agree p d /\ s_neg d = p_neg p /\ s_affix d = af.
+  exists d, spec_signed dec grp af body = Some d /\ fields_agree p d /\ s_neg d = p_neg p /\ s_affix d = af /\
+            spec_representable d = true.
 Proof.
   intros Hwf H Hrun. rewrite parse_number_unfold in H. unfold spec_signed.
   destruct body as [|c r]; [discriminate|]. unfold strip_sign in Hrun.
   destruct (c =? c_minus) eqn:E1.
-  - cbn [orb] in Hrun. destruct (sound_rest _ _ _ _ _ _ Hwf H Hrun true af) as (d & A & B & C & D & E & _).
+  - cbn [orb] in Hrun. destruct (sound_rest _ _ _ _ _ _ Hwf H Hrun true af) as (d & A & B & C & D & E & F).
     exists d. rewrite E, C. auto.
   - destruct (c =? c_plus) eqn:E2.
-    + cbn [orb] in Hrun. destruct (sound_rest _ _ _ _ _ _ Hwf H Hrun false af) as (d & A & B & C & D & E & _).
+    + cbn [orb] in Hrun. destruct (sound_rest _ _ _ _ _ _ Hwf H Hrun false af) as (d & A & B & C & D & E & F).
       exists d. rewrite E, C. auto.
-    + cbn [orb] in Hrun. destruct (sound_rest _ _ _ _ _ _ Hwf H Hrun false af) as (d & A & B & C & D & E & _).
+    + cbn [orb] in Hrun. destruct (sound_rest _ _ _ _ _ _ Hwf H Hrun false af) as (d & A & B & C & D & E & F).
       exists d. rewrite E, C. auto.
 Qed.
 
@@ -1079,16 +1086,15 @@ Lemma sound_unsigned dec grp af body p :
   wf_seps dec grp = true ->
   parse_number dec grp body = Some p ->
   match body with c :: _ => (c =? c_minus) || (c =? c_plus) | [] => false end = false ->
-  run_ok grp (strip_sign body) = true -> existsb is_e body = false ->
+  run_ok grp (strip_sign body) = true ->
   exists d, spec_unsigned dec grp true af body = Some d /\ fields_agree p d /\ s_neg d = true /\ s_affix d = af /\
-            p_neg p = false /\ p_sci p = false.
+            p_neg p = false /\ spec_representable d = true.
 Proof.
-  intros Hwf H Hns Hrun He. rewrite parse_number_unfold in H.
+  intros Hwf H Hns Hrun. rewrite parse_number_unfold in H.
   destruct body as [|c r]; [discriminate|]. unfold strip_sign in Hrun. rewrite Hns in Hrun.
   apply orb_false_iff in Hns as [E1 E2]. rewrite E1, E2 in H.
   destruct (sound_rest _ _ _ _ _ _ Hwf H Hrun true af) as (d & A & B & C & D & E & F).
   exists d. repeat split; auto; try apply B.
-  destruct (p_sci p); [|reflexivity]. rewrite (F eq_refl) in He. discriminate.
 Qed.
 
 Theorem sound L t r :
@@ -1096,20 +1102,20 @@ Theorem sound L t r :
   parse_formatted_number L t = Some r ->
   r_kind r <> KDate ->
   known_class L t = None ->
-  exists d, spec_recognise L t = Some d /\ agrees r d = true.
+  exists d, spec_stored L t = Some d /\ agrees r d = true.
 Proof.
   intros Hwf H Hnd Hk.
-  assert (Hk3 : double_sign L t = false /\ ill_grouped L t = false /\ negcur_exponent L t = false).
+  assert (Hk2 : double_sign L t = false /\ ill_grouped L t = false).
   { unfold known_class in Hk. destruct (double_sign L t); [discriminate|].
-    destruct (ill_grouped L t); [discriminate|]. destruct (negcur_exponent L t); [discriminate|]. auto. }
-  destruct Hk3 as (K1 & K2 & K3).
-  unfold double_sign, ill_grouped, negcur_exponent, number_body in K1, K2, K3.
-  unfold parse_formatted_number in H. unfold spec_recognise.
+    destruct (ill_grouped L t); [discriminate|]. auto. }
+  destruct Hk2 as (K1 & K2).
+  unfold double_sign, ill_grouped, number_body in K1, K2.
+  unfold parse_formatted_number in H. unfold spec_stored, spec_recognise.
   destruct (strip_suffix [c_pct] (trim t)) as [b|].
   - destruct (parse_number (l_dec L) (l_grp L) (trim b)) as [p|] eqn:Ep; [|discriminate].
     assert (Hrun : run_ok (l_grp L) (strip_sign (trim b)) = true) by (unfold run_ok; rewrite K2; reflexivity).
-    destruct (sound_signed _ _ APercent _ _ Hwf Ep Hrun) as (d & A & B & C & D).
-    exists d. split; [exact A|]. unfold agrees.
+    destruct (sound_signed _ _ APercent _ _ Hwf Ep Hrun) as (d & A & B & C & D & R).
+    exists d. rewrite A, R. split; [reflexivity|]. unfold agrees.
     assert (Hc : forall f, agrees_core {| r_value := VNum p true false; r_kind := KPercent; r_fmt := f |} d = true)
       by (intro f; apply agrees_core_of; [exact B | rewrite D; reflexivity | rewrite D; reflexivity]).
     assert (Hsg : forall f, agrees_sign {| r_value := VNum p true false; r_kind := KPercent; r_fmt := f |} d = true)
@@ -1121,20 +1127,20 @@ Proof.
       inversion H; subst r; clear H.
       destruct (find_currency_mode _ _ _ _ _ Efc) as [Hm|[Hm|Hm]]; subst mode; cbn [Z.eqb Pos.eqb negb andb] in *.
       * assert (Hrun : run_ok (l_grp L) (strip_sign (trim b)) = true) by (unfold run_ok; rewrite K2; reflexivity).
-        destruct (sound_unsigned _ _ (ACurrency c true) _ _ Hwf Ep K1 Hrun K3) as (d & A & B & C & D & E & F).
-        exists d. split; [exact A|]. unfold agrees, cur_result. cbn [Z.eqb]. rewrite F.
-        destruct (0 <? p_decdigits p);
+        destruct (sound_unsigned _ _ (ACurrency c true) _ _ Hwf Ep K1 Hrun) as (d & A & B & C & D & E & R).
+        exists d. rewrite A, R. split; [reflexivity|]. unfold agrees, cur_result. cbn [Z.eqb].
+        destruct (p_sci p); [|destruct (0 <? p_decdigits p)];
           (rewrite agrees_core_of; [| exact B | rewrite D; reflexivity | rewrite D; reflexivity]);
           unfold agrees_sign; cbn [r_value]; rewrite E, C; reflexivity.
       * assert (Hrun : run_ok (l_grp L) (strip_sign (trim b)) = true) by (unfold run_ok; rewrite K2; reflexivity).
-        destruct (sound_signed _ _ (ACurrency c true) _ _ Hwf Ep Hrun) as (d & A & B & C & D).
-        exists d. split; [exact A|]. unfold agrees, cur_result. cbn [Z.eqb Pos.eqb].
+        destruct (sound_signed _ _ (ACurrency c true) _ _ Hwf Ep Hrun) as (d & A & B & C & D & R).
+        exists d. rewrite A, R. split; [reflexivity|]. unfold agrees, cur_result. cbn [Z.eqb Pos.eqb].
         destruct (p_sci p); [|destruct (0 <? p_decdigits p)];
           (rewrite agrees_core_of; [| exact B | rewrite D; reflexivity | rewrite D; reflexivity]);
           unfold agrees_sign; cbn [r_value]; rewrite C, xorb_false_r, eqb_reflx; reflexivity.
       * assert (Hrun : run_ok (l_grp L) (strip_sign (trim b)) = true) by (unfold run_ok; rewrite K2; reflexivity).
-        destruct (sound_signed _ _ (ACurrency c false) _ _ Hwf Ep Hrun) as (d & A & B & C & D).
-        exists d. split; [exact A|]. unfold agrees, cur_result. cbn [Z.eqb Pos.eqb].
+        destruct (sound_signed _ _ (ACurrency c false) _ _ Hwf Ep Hrun) as (d & A & B & C & D & R).
+        exists d. rewrite A, R. split; [reflexivity|]. unfold agrees, cur_result. cbn [Z.eqb Pos.eqb].
         destruct (p_sci p); [|destruct (0 <? p_decdigits p)];
           (rewrite agrees_core_of; [| exact B | rewrite D; reflexivity | rewrite D; reflexivity]);
           unfold agrees_sign; cbn [r_value]; rewrite C, xorb_false_r, eqb_reflx; reflexivity.
@@ -1143,9 +1149,104 @@ Proof.
       * destruct (parse_number (l_dec L) (l_grp L) (trim t)) as [p|] eqn:Ep; [|discriminate].
         inversion H; subst r; clear H.
         assert (Hrun : run_ok (l_grp L) (strip_sign (trim t)) = true) by (unfold run_ok; rewrite K2; reflexivity).
-        destruct (sound_signed _ _ ANone _ _ Hwf Ep Hrun) as (d & A & B & C & D).
-        exists d. split; [exact A|]. unfold agrees, plain_result.
+        destruct (sound_signed _ _ ANone _ _ Hwf Ep Hrun) as (d & A & B & C & D & R).
+        exists d. rewrite A, R. split; [reflexivity|]. unfold agrees, plain_result.
         destruct (p_sci p); [|destruct (p_commas p); [destruct (0 <? p_decdigits p)|]];
           (rewrite agrees_core_of; [| exact B | rewrite D; reflexivity | rewrite D; reflexivity]);
           unfold agrees_sign; cbn [r_value]; rewrite C, xorb_false_r, eqb_reflx; reflexivity.
+Qed.
+
+(* ---------- recognised numbers are finite ---------- *)
+Lemma parse_rest_finite dec grp neg value s1 p :
+  parse_rest dec grp neg value s1 = Some p ->
+  dec_overflows (p_int p) (p_frac p) (lit_exp (p_exp p)) = false.
+Proof.
+  unfold parse_rest. destruct s1 as [|c1 cr]; [discriminate|].
+  destruct (c1 =? grp); [discriminate|].
+  destruct (scan_int grp (c1 :: cr) 0) as [[ints idxs] s2].
+  destruct (groups_ok ints idxs); cbn [negb]; [|discriminate].
+  destruct (dot_step dec s2) as [[dot frac] s3]. destruct (exp_step s3) as [[sci ex] s4].
+  destruct s4 as [|? ?]; [|discriminate].
+  match goal with |- (if ?X then _ else _) = _ -> _ => destruct X eqn:Ef end; [|discriminate].
+  apply andb_true_iff in Ef as [_ Ef]. apply negb_true_iff in Ef.
+  intro H; inversion H; subst p. exact Ef.
+Qed.
+
+Lemma parse_number_finite dec grp v p :
+  parse_number dec grp v = Some p -> dec_overflows (p_int p) (p_frac p) (lit_exp (p_exp p)) = false.
+Proof.
+  rewrite parse_number_unfold. destruct v as [|c r]; [discriminate|].
+  destruct (c =? c_minus); [apply parse_rest_finite|]. destruct (c =? c_plus); apply parse_rest_finite.
+Qed.
+
+Definition value_finite (v : value) : bool :=
+  match v with
+  | VNum p _ _ => negb (dec_overflows (p_int p) (p_frac p) (lit_exp (p_exp p)))
+  | VSerial _ => true
+  end.
+
+Theorem recognised_finite L t r : parse_formatted_number L t = Some r -> value_finite (r_value r) = true.
+Proof.
+  unfold parse_formatted_number.
+  destruct (strip_suffix [c_pct] (trim t)) as [b|].
+  - destruct (parse_number (l_dec L) (l_grp L) (trim b)) as [p|] eqn:Ep; [|discriminate].
+    pose proof (parse_number_finite _ _ _ _ Ep) as F.
+    destruct (p_sci p); [|destruct (0 <? p_decdigits p)]; intro H; inversion H; subst r; cbn [r_value value_finite]; rewrite F; reflexivity.
+  - rewrite try_currencies_find.
+    destruct (find_currency (l_cur L) (trim t)) as [[[c mode] b]|] eqn:Efc.
+    + destruct (parse_number (l_dec L) (l_grp L) (trim b)) as [p|] eqn:Ep; [|discriminate].
+      pose proof (parse_number_finite _ _ _ _ Ep) as F.
+      intro H; inversion H; subst r. unfold cur_result.
+      destruct (mode =? 0); [|destruct (mode =? 1)]; (destruct (p_sci p); [|destruct (0 <? p_decdigits p)]);
+        cbn [r_value value_finite]; rewrite F; reflexivity.
+    + destruct (parse_date L t) as [[n f]|]; [intro H; inversion H; reflexivity|].
+      destruct (parse_number (l_dec L) (l_grp L) (trim t)) as [p|] eqn:Ep; [|discriminate].
+      pose proof (parse_number_finite _ _ _ _ Ep) as F.
+      intro H; inversion H; subst r. unfold plain_result.
+      destruct (p_sci p); [|destruct (p_commas p); [destruct (0 <? p_decdigits p)|]]; cbn [r_value value_finite]; rewrite F; reflexivity.
+Qed.
+
+(* ---------- what [dec_overflows = false] means: the exact magnitude is below the threshold ---------- *)
+Lemma dec_val_bounds ds : all_digits ds = true -> forall acc, 0 <= acc ->
+  acc * 10 ^ len ds <= dec_val acc ds < (acc + 1) * 10 ^ len ds.
+Proof.
+  induction ds as [|c ds IH]; intros Hd acc Ha.
+  - unfold len. cbn [length Z.of_nat dec_val]. rewrite Z.pow_0_r. lia.
+  - unfold all_digits in Hd. cbn [forallb] in Hd. apply andb_true_iff in Hd as [Hc Hd].
+    unfold is_digit in Hc. apply andb_true_iff in Hc as [C1 C2]. apply Z.leb_le in C1, C2.
+    cbn [dec_val]. specialize (IH Hd (acc * 10 + (c - 48)) ltac:(lia)).
+    replace (len (c :: ds)) with (len ds + 1) by (unfold len; cbn [length]; lia).
+    rewrite Z.pow_add_r by (unfold len; lia). rewrite Z.pow_1_r.
+    assert (0 < 10 ^ len ds) by (apply Z.pow_pos_nonneg; unfold len; lia). nia.
+Qed.
+
+Theorem dec_overflows_meaning ints frac ex :
+  all_digits (ints ++ frac) = true -> dec_overflows ints frac ex = false ->
+  let m := dec_val 0 (ints ++ frac) in
+  let e := ex - len frac in
+  (0 <= e -> m * 10 ^ e < f64_overflow_threshold) /\
+  (e < 0 -> m < f64_overflow_threshold * 10 ^ (- e)).
+Proof.
+  intros Hd H m e. unfold dec_overflows in H. fold m e in H.
+  pose proof (dec_val_bounds _ Hd 0 ltac:(lia)) as [Hm0 Hm1]. fold m in Hm0, Hm1.
+  rewrite len_app in Hm1. cbn in Hm0.
+  assert (HT : 10 ^ 308 < f64_overflow_threshold) by (vm_compute; reflexivity).
+  assert (HT0 : 0 < f64_overflow_threshold) by (vm_compute; reflexivity).
+  destruct (m =? 0) eqn:E0.
+  - apply Z.eqb_eq in E0. rewrite E0. split; intro He.
+    + lia.
+    + assert (0 < 10 ^ (- e)) by (apply Z.pow_pos_nonneg; lia). nia.
+  - destruct (400 <? e); [discriminate|].
+    destruct (len ints + len frac + e <=? 308) eqn:E1.
+    + apply Z.leb_le in E1. pose proof (len_nonneg ints). pose proof (len_nonneg frac).
+      set (nd := len ints + len frac) in *. split; intro He.
+      * assert (m * 10 ^ e < 10 ^ nd * 10 ^ e) by (assert (0 < 10 ^ e) by (apply Z.pow_pos_nonneg; lia); nia).
+        rewrite <- Z.pow_add_r in H2 by lia.
+        assert (10 ^ (nd + e) <= 10 ^ 308) by (apply Z.pow_le_mono_r; lia). lia.
+      * assert (10 ^ nd <= 10 ^ (308 + - e)) by (apply Z.pow_le_mono_r; lia).
+        rewrite Z.pow_add_r in H2 by lia.
+        assert (0 < 10 ^ (- e)) by (apply Z.pow_pos_nonneg; lia). nia.
+    + destruct (0 <=? e) eqn:E2.
+      * apply Z.leb_le in E2. apply Z.leb_gt in H. split; intro He; lia.
+      * apply Z.leb_gt in E2. apply Z.leb_gt in H. split; intro He; lia.
 Qed.
